@@ -334,7 +334,9 @@ CO_STACKS = ["", "lim", "take", "enum", "map", "map.lim", "lim.map", "take.lim",
 CO_RCOL_STACKS = ["map", "map.lim", "lim.map", "enum.map", "map.take", "lim.enum.map"]
 
 
-def gen_co(rng, count, tag, terms=("fe", "tfe", "col"), stacks=None, drop=0.015, panic=0.02):
+def gen_co(rng, count, tag, terms=("fe", "tfe", "col"), stacks=None, drop=0.015, panic=0.02, allready=False):
+    """allready: a source that has every item ready and ends at once, and no reference to the source's wakers: the cases that can also be run over
+       Vec::into_co_stream() (co-harness `cov:`), whose trace must equal the stream-source trace without the source's own events"""
     out = []
     stacks = stacks or CO_STACKS
     for c in range(count):
@@ -349,17 +351,20 @@ def gen_co(rng, count, tag, terms=("fe", "tfe", "col"), stacks=None, drop=0.015,
             f = []
             if rng.random() < 0.25:
                 for _ in range(rng.randint(1, 2)):
-                    f.append("s" if rng.random() < 0.5 else f"{rng.randrange(nc)}.{rng.randrange(3)}")
+                    f.append("s" if (rng.random() < 0.5 or (allready and nc == 1)) else f"{rng.randrange(1 if allready else 0, nc)}.{rng.randrange(3)}")
             return ("!" + "+".join(f) + ":") if f else ""
         src = []
-        for j in range(n):
-            for _ in range(rng.choice([0, 0, 1, 2])):
+        if allready:
+            src = [f"I{j}" for j in range(n)] + ["E"]
+        else:
+            for j in range(n):
+                for _ in range(rng.choice([0, 0, 1, 2])):
+                    src.append(cf() + "P")
+                src.append(cf() + f"I{j}")
+            for _ in range(rng.choice([0, 0, 1])):
                 src.append(cf() + "P")
-            src.append(cf() + f"I{j}")
-        for _ in range(rng.choice([0, 0, 1])):
-            src.append(cf() + "P")
-        if rng.random() < 0.9:
-            src.append(cf() + "E")
+            if rng.random() < 0.9:
+                src.append(cf() + "E")
 
         def work(err):
             st = []
@@ -380,7 +385,7 @@ def gen_co(rng, count, tag, terms=("fe", "tfe", "col"), stacks=None, drop=0.015,
             elif r < 0.55:
                 ops.append("q")
             elif r < 1.0 - drop:
-                ops.append(f"f{rng.randrange(nc)}.{rng.randrange(4)}")
+                ops.append("q" if (allready and nc == 1) else f"f{rng.randrange(1 if allready else 0, nc)}.{rng.randrange(4)}")
             else:
                 ops.append("d")
         out.append(f"{tag}{c} co:{stack}:{term} take={take} lim={lim} n={n} {';'.join(scripts)} | {' '.join(ops)}")
